@@ -268,6 +268,123 @@ def guard_all(rng, p, keep=()):
     return q
 
 
+class EGen(Gen):
+    """programs with the (value, error) convention (C08): error-returning functions whose error operand is the
+    literal nil, a fresh error, or an error variable inside its own `!= nil` check (forwarding); callers that check
+    `err != nil` (early return) or `err == nil` (guarded use), use the value unchecked, overwrite the error before
+    the check, or ignore it"""
+
+    def program(self):
+        r = self.rng
+        nf = r.randint(2, 5)
+        npk = r.randint(1, self.max_pkgs)
+        funcs = []
+        for f in range(nf):
+            pkg = npk - 1 if f == 0 else r.randrange(npk)
+            nparams = 0 if f == 0 else r.choice([0, 1, 2, 2])
+            err = f != 0 and r.random() < 0.65
+            if not err and nparams == 1:
+                nparams = 2          # keep contracts out of this stream
+            funcs.append(dict(nparams=nparams, pkg=pkg, method=False, body=("skip",), ptypes=["T"] * nparams, rtype="T",
+                              ltypes={}, impl=None, err=err))
+        if not any(fd["err"] for fd in funcs):
+            funcs.append(dict(nparams=1, pkg=0, method=False, body=("skip",), ptypes=["T"], rtype="T", ltypes={}, impl=None, err=True))
+        self.p = dict(funcs=funcs, ginit=[], gpkg=[], npkgs=npk)
+        self.next_d = 1
+        self.next_cs = 1
+        for f in range(len(funcs)):
+            self.f = f
+            fd = funcs[f]
+            self.nloc = fd["nparams"] + r.randint(1, 3)
+            for q in range(r.randint(1, 2)):
+                fd["ltypes"][50 + q] = "E"
+            fd["body"] = self.block(r.randint(2, 5), 0, True)
+        return self.p
+
+    def evars(self):
+        fd = self.p["funcs"][self.f]
+        return [L(n) for n, t in fd["ltypes"].items() if t == "E"]
+
+    def ret(self, a=None):
+        fd = self.p["funcs"][self.f]
+        a = self.atom() if a is None else a
+        if fd["err"]:
+            r = self.rng.random()
+            if r < 0.45:
+                return ("return2", a, "nil")
+            if r < 0.9:
+                return ("return2", "nil" if self.rng.random() < 0.7 else a, "new")
+            return ("return2", "nil", "nil")       # violates the convention
+        return ("return", a)
+
+    def fail_ret(self, xe):
+        """the early return of a failed check"""
+        fd = self.p["funcs"][self.f]
+        if fd["err"]:
+            return ("return2", "nil", xe if self.rng.random() < 0.6 else "new")
+        return ("return", "nil")
+
+    def errcallees(self, forward_only=True):
+        k = self.p["funcs"][self.f]["pkg"]
+        return [g for g, fd in enumerate(self.p["funcs"]) if fd["pkg"] <= k and g != 0 and fd["err"] and (g > self.f) == forward_only]
+
+    def callees(self):
+        k = self.p["funcs"][self.f]["pkg"]
+        return [g for g, fd in enumerate(self.p["funcs"]) if fd["pkg"] <= k and g != 0 and not fd["err"]]
+
+    def call2_pattern(self, tail):
+        r = self.rng
+        gs = self.errcallees(True)
+        if not gs:
+            return None
+        g = r.choice(gs)
+        fd = self.p["funcs"][g]
+        args = [self.atom() for _ in range(fd["nparams"])]
+        x = r.choice([v for v in self.vars() if v[0] == "L"])
+        evs = self.evars()
+        xe = r.choice(evs) if evs and r.random() < 0.9 else None
+        call = ("call2", x, xe, g, args, self.cs_id())
+        use = lambda: ("deref", self.deref_id(), x)
+        shape = r.randrange(7)
+        if xe is None or shape == 0:
+            return M.seq([call, use()])                                    # unchecked
+        if shape == 1 and tail:
+            return M.seq([call, ("if", ("nonnil", xe), self.fail_ret(xe), ("skip",)), use(), self.stmt(1, False)])   # early return
+        if shape == 2:
+            return M.seq([call, ("if", ("not", ("nonnil", xe)), M.seq([use(), self.stmt(1, False)]), ("skip",))])     # err == nil { use }
+        if shape == 3:
+            return M.seq([call, ("if", ("or", ("nonnil", xe), ("opaque",)), ("skip",), use())])                      # compound
+        if shape == 4:
+            # the error is overwritten before the check
+            over = ("assign", xe, "nil") if r.random() < 0.5 or not self.errcallees(True) else ("call2", None, xe, r.choice(self.errcallees(True)), None, None)
+            if over[0] == "call2":
+                g2 = over[3]
+                over = ("call2", None, xe, g2, [self.atom() for _ in range(self.p["funcs"][g2]["nparams"])], self.cs_id())
+            return M.seq([call, over, ("if", ("not", ("nonnil", xe)), use(), ("skip",))])
+        if shape == 5:
+            y = r.choice([v for v in self.vars() if v[0] == "L"])
+            return M.seq([call, ("if", ("not", ("nonnil", xe)), M.seq([("assign", y, x), ("deref", self.deref_id(), y)]), ("skip",))])   # copy after check
+        return M.seq([call, ("if", ("nonnil", xe), use(), ("skip",))])      # used on the failure path: unchecked
+
+    def stmt(self, depth, tail):
+        r = self.rng.random()
+        if r < 0.3 and depth < 2:
+            c = self.call2_pattern(tail)
+            if c is not None:
+                return c
+        s = Gen.stmt(self, depth, tail)
+        if s[0] == "return":
+            return self.ret(s[1])
+        return s
+
+    def cond(self, depth=0):
+        c = Gen.cond(self, depth)
+        evs = self.evars()
+        if c[0] == "nonnil" and evs and self.rng.random() < 0.25:
+            return ("nonnil", self.rng.choice(evs))
+        return c
+
+
 class IGen(Gen):
     """programs with interfaces (C09): interfaces I_k with methods X<k>x<m> (0 or 2 parameters, some of interface
     type), implementations S_j (pointer or value receivers, any package), interface-typed locals, parameters and
@@ -504,7 +621,7 @@ func main() {
 
 def probed(fd):
     """one-parameter plain functions from *T to *T: candidates for a nonnil->nonnil contract"""
-    return (fd["nparams"] == 1 and not fd.get("method") and not fd.get("impl")
+    return (fd["nparams"] == 1 and not fd.get("method") and not fd.get("impl") and not fd.get("err")
             and (fd.get("ptypes") or ["T"])[0] == "T" and fd.get("rtype", "T") == "T")
 
 
@@ -627,7 +744,7 @@ def run_model(progs, ctrs=None):
         head, decl, funcs, dups, inferred, runs = [x.strip() for x in l.split("|")]
         flags = dict(kv.split("=") for kv in head.split())
         an = flags["an"] == "1"
-        res[name] = dict(wf=flags["wf"] == "1", guarded=flags["guarded"] == "1", an=an, gsafe=flags["gsafe"] == "1", clocal=flags["clocal"] == "1",
+        res[name] = dict(wf=flags["wf"] == "1", guarded=flags["guarded"] == "1", an=an, gsafe=flags["gsafe"] == "1", clocal=flags["clocal"] == "1", nodel=flags.get("nodel", "1") == "1",
                          decl=parse_trigs(decl), funcs=[parse_trigs(x) for x in funcs.split("/")] if an else [],
                          dups=[parse_trigs(x) for x in dups.split("/")] if an else [],
                          infer=set(int(x) for x in inferred.split(",") if x),
@@ -874,6 +991,8 @@ def real_triggers(res, name, pos, cpos=None, prog=None):
             continue
         if t["pk"] == "4":
             continue
+        if not t["pk"] and not t["ck"]:
+            continue          # a placeholder trigger of the error-return machinery that was resolved away
         if t["pk"] == "1":
             prod = "nil"
         elif t["pk"] == "2":
@@ -995,13 +1114,15 @@ def gen_cases(rng, n, streams=("random", "guarded", "lone", "lone-simple"), pref
         simple = stream == "lone-simple"
         if stream.startswith("iface"):
             g = IGen(rng, methods=False)
+        elif stream.startswith("err"):
+            g = EGen(rng, methods=False, globals_=False)
         else:
             g = Gen(rng, globals_=not simple, max_funcs=3 if simple else 5, simple=simple, methods=not simple)
         p = g.program()
         lone = None
-        if stream in ("guarded", "iface-guarded"):
+        if stream in ("guarded", "iface-guarded", "err-guarded"):
             p = guard_all(rng, p)
-        elif stream in ("lone", "lone-simple", "iface-lone"):
+        elif stream in ("lone", "lone-simple", "iface-lone", "err-lone"):
             q, d = lone_variant(rng, p)
             if q is None:
                 stream = "random"
